@@ -1,6 +1,6 @@
 SPECIFICATION Spec
 CONSTANTS TokBoost = 0
   SubjBoost = 1
-  Fams = {"core", "brk", "cls", "clsall", "nocase", "utf", "extoff", "ext", "extbr", "fnbrk", "fncase"}
+  Fams = {"core", "unanch", "brk", "cls", "clsall", "nocase", "utf", "extoff", "ext", "extbr", "fnbrk", "fncase"}
 INVARIANTS ModeIrrelevance LiteralLaw EmitInv
 VIEW StateKey
